@@ -46,6 +46,66 @@ def engineered():
     return out
 
 
+def pytree_sessions(rng, n):
+    """PyTree half: mismatch at leaf k of n (after k leaves bound new names and the structure name), unbound structure name, raising leaf"""
+    import c08
+    out = []
+    arrv = lambda sh: ["a", list(sh), "float32"]
+    for nl in range(1, 6):
+        for k in range(nl):
+            leaves = [arrv([2 + i, 9]) for i in range(nl)]
+            leaves[k] = arrv([2 + k, 8])            # second axis disagrees with the others (or, for k = 0, with nothing: then leaf 1 fails)
+            for cont in ("t", "l"):
+                out.append({"nocontext": False, "steps": [{"kind": "arr", "dim": "x", "shape": [5]},
+                            {"kind": "tree", "leaf": ["arr", "Float", "?a b"], "structure": "T", "value": [cont, leaves]},
+                            {"kind": "tree", "leaf": ["arr", "Float", "a b"], "structure": None, "value": [cont, leaves]},
+                            {"kind": "arr", "dim": "b", "shape": [7]}]})
+    out.append({"nocontext": False, "steps": [{"kind": "tree", "leaf": "int", "structure": "S T", "value": ["t", [["i", 1]]]}]})
+    out.append({"nocontext": False, "steps": [{"kind": "tree", "leaf": "int", "structure": "T", "value": ["t", [["i", 1]]]}, {"kind": "tree", "leaf": "int", "structure": "T U ...", "value": ["t", [["i", 1]]]}]})
+    out.append({"nocontext": False, "steps": [{"kind": "tree", "leaf": ["arr", "Float", "a q+1"], "structure": "T", "value": ["t", [["a", [2, 3], "float32"]]]}]})
+    out.append({"nocontext": False, "steps": [{"kind": "tree", "leaf": ["arr", "Float", "a"], "structure": "T", "value": ["t", [["a", [2], "float32"], ["s", "x"]]]}]})
+    out += [c08.gen_session(rng) for _ in range(n)]
+    return out
+
+
+def pytree_part(R):
+    import gen_trees as T
+    sessions = pytree_sessions(R.rng, 6000 if R.thorough else 500)
+    nw = 4
+    chunks = [sessions[i::nw] for i in range(nw)]
+    from concurrent.futures import ThreadPoolExecutor
+    with ThreadPoolExecutor(nw) as ex:
+        outs = list(ex.map(lambda ch: vf.impl("impl_pytree.py", {"sessions": ch}), chunks))
+    impl = [None] * len(sessions)
+    for w, o in enumerate(outs):
+        for j, r in enumerate(o):
+            impl[w + j * nw] = r
+    model = vf.coq_eval_strings(["model.PyTreeCheck"], T.RUN, [T.session_coq(s) for s in sessions], shard=300)
+    n, nontriv = 0, set()
+    for sess, r, mline in zip(sessions, impl, model):
+        msteps = mline.split(" | ")
+        for j, (st, ir, m) in enumerate(zip(sess["steps"], r["steps"], msteps)):
+            n += 1
+            if ir["build"] != "ok":
+                continue
+            v = ir["verdict"]
+            R.count("pytree-verdict:" + v)
+            small = dict(sess, steps=sess["steps"][:j + 1])
+            if v != "acc":
+                if st["kind"] == "tree":
+                    nontriv.add(json.dumps(small, sort_keys=True))
+                if not ir["unchanged"]:
+                    R.violation("property", "a %s check that %s changed the context's bindings: before `%s`, after `%s` (%s)" % ("PyTree" if st["kind"] == "tree" else "array", "returned False" if v == "rej" else "raised", ir["before"], ir["memo"], json.dumps(st)),
+                                {"session": small, "step": j, "before": ir["before"], "after": ir["memo"]}, key={"kind": "not-restored", "verdict": v, "what": st["kind"]})
+            elif ir.get("idem") is False:
+                R.violation("property", "repeating a passed %s check did not pass again with equal bindings (%s from `%s`)" % (st["kind"], json.dumps(st), ir["before"]), {"session": small, "step": j}, key={"kind": "not-idempotent", "what": st["kind"]})
+            got = "%s %s" % (v, ir["memo"])
+            if got != m:
+                R.violation("correspondence", "PyTree model and implementation disagree at step %d: impl `%s`, model `%s`" % (j, got, m), {"session": small, "impl": got, "model": m}, key={"kind": "corr-pytree"}, no_input=True)
+                break
+    return n, nontriv
+
+
 def main():
     R = vf.Report(PID)
     proved = R.proof_step()
@@ -92,13 +152,16 @@ def main():
                 break
         if len(samples) < 5 and idx % 7 == 3 and any(r.get("verdict", "acc") != "acc" for r in res):
             samples.append({"session": sess, "impl": [r.get("verdict", r["build"]) + " " + r.get("memo", "") for r in res]})
+    n_pt, nontriv_pt = pytree_part(R)
+    nchecks += n_pt
+    nontriv |= nontriv_pt
     if not proved:
         R.violation("proof", "proof obligations of props/C04.v no longer check: " + str(R.broken_proof)[-800:],
                     {"theorem_file": "coq/props/C04.v", "log": R.broken_proof}, no_input=not any(v["kind"] == "property" for v in R.violations))
     R.coverage.update(evaluations=nchecks, distinct_nontrivial=len(nontriv), samples=samples, sessions=len(sessions),
                       rule="%d engineered sessions (mismatch, unbound symbolic name, user exception of class Exception and BaseException at axis k of n for every k<n<=5; variadic/suffix disagreements after prefix bindings) + %d PRNG sessions "
                            "(half with raising axes, 50%% perturbed shapes). Oracle independent of the model: deep copy of the live memo before == after for every non-True outcome (contents and insertion order), second identical check after a True outcome passes and leaves the memo equal. "
-                           "Also model == implementation on verdict and memo. non-trivial = distinct (history, failing check) with rank >= 2" % (len(engineered()), n))
+                           "Also model == implementation on verdict and memo. PyTree half: bad leaf k of n for every k<n<=5 (tuple and list containers, '?a b' with a new structure name, and 'a b'), unbound structure names, unbound symbolic axis in a leaf, non-array leaf, + the C08 session generator; same two oracles. non-trivial = distinct (history, failing check) with rank >= 2" % (len(engineered()), n))
     R.assumptions += ["symbolic expressions restricted to the modelled grammar", "user exceptions injected through {boom(k)} replacement fields"]
     sys.exit(R.finish())
 
